@@ -29,7 +29,9 @@ func (t *WeightedMerkleTrie) GetPath(keys [][]byte) ([]byte, error) {
 		}
 	}
 
-	if len(keys) > 10 {
+	// the parallel collection below only knows how to split the work by the children of a branch root;
+	// any other root (a single entry, or a shared-prefix short node) is handled by the sequential marker
+	if _, branchRoot := t.root.(*routingNode); branchRoot && len(keys) > 10 {
 		eg, _ := errgroup.WithContext(context.TODO())
 		eg.SetLimit(5)
 		if node, ok := t.root.(*routingNode); ok {
